@@ -14,8 +14,8 @@ pub struct C17;
 
 fn n_cases(tier: Tier) -> u64 {
     match tier {
-        Tier::Quick => 800,
-        Tier::Thorough => 8_000,
+        Tier::Quick => 4_000,
+        Tier::Thorough => 40_000,
     }
 }
 
